@@ -2,13 +2,16 @@
 proof: Properties_C19.v — generated status chain, loop skeleton, ALM propagation, exit block; PROMPTNESS of a sticky request on the
 whole-loop models (StopPrompt*.v): PANOC, ZeroFPR (line-search pass bound, stop at the next while-test, exit at the next stop check,
 consecutive polls, request-to-return, no direction call after the poll that sees the request), PANTR, FISTA (one poll per iteration: the
-iteration in progress completes), PANOC-OCP; validity of Interrupted outputs (C03 relations); ALM over all four inner solvers (every
-inner solve started after the request is start-up + one stop check; Interrupted is propagated at once).
+iteration in progress completes), PANOC-OCP; validity of Interrupted outputs (C03 relations); ALM over all four inner solvers (the run
+ends at the outer iteration in which the request becomes visible: NO inner solve is started after the request; a solve started with
+the request already visible — stop() inside ALM's penalty initialisation — is start-up + one stop check; Interrupted is propagated at once).
 exploration (exhaustive fault enumeration on fixed problems): stop() is called from inside problem-function evaluation #j for every j,
 from every progress callback, and from every call of a scripted direction provider; status, tail length (PROVED bounds where a model
 theorem exists, converted to user-function calls), callbacks / direction calls after the request, outputs (C03 relations) and ALM
 propagation are checked.  Not covered: real threads / data-race freedom of the atomic flag.
-FINDING recorded in coverage['alm_probe']: under ALM the number of inner solves started after a visible request is not bounded by one."""
+Under ALM the driver counts the outer iterations started (calls of eval_proj_multipliers, the first statement of the outer loop): none may
+start after stop() was called (C19_alm_*_stop_ends_run).  The code before the repair of ALMSolver::stop() violates this
+(known_findings C19:alm-runs-on-after-stop-request; coverage['alm_probe'] replays the recorded counter-run: now ONE outer iteration)."""
 import math
 from vf.core import *
 from vf import solvelib as sl
@@ -60,10 +63,10 @@ def make_req(prob, solver, direction, mode, **kw):
 #   PANTR   the check that sees the request returns with no further oracle call (C19_pantr_stop_is_prompt); the iteration in
 #           progress completes first and contains a direction.apply whose cost (Steihaug CG, one Hessian-vector product per
 #           iteration) is not a constant of the theorem: evaluations keep the empirical bound, callbacks are checked
-#   under ALM (all four inner solvers): the solve in which the request lands as above; EVERY later inner solve is start-up + one
-#           stop check (one callback, k = 0, no direction call) and the first that returns Interrupted is the last
-#           (C19_alm_panoc_stop_is_prompt, C19_alm_{zerofpr,pantr,fista}_stop_is_prompt); the number of later solves is NOT bounded
-#           by one (finding C19_alm_one_further_solve_refuted) — the bound is per later solve.
+#   under ALM (all four inner solvers): the solve in which the request lands as above, and the RUN ends at that outer iteration: no
+#           inner solve is started after the request (C19_alm_{panoc,zerofpr,pantr,fista}_stop_ends_run); a request that lands before
+#           the first outer iteration (inside initialize_penalty) is seen by the first inner solve, which is start-up + one stop check,
+#           and the run ends there.  The tail bound under ALM is therefore the single-solve bound (+ the driver's compute_kkt_error).
 PROVED_K = {"panoc": 3, "zerofpr": 2}
 STARTUP_K = {"panoc": 5, "zerofpr": 4, "fista": 6}
 NBT_CAP = 84      # ceil(log2(L_max / L_min)) for the default 1e20 / 1e-5: halvings of one unpolled step-size loop
@@ -95,13 +98,13 @@ def run(ctx):
     ctx.coverage["rule"] = ("fault enumeration: for 3 fixed problems x 12 solver stacks (10 shipped + 2 with a scripted direction) x {stand-alone, under ALM}: stop() injected at every problem-function "
                             "evaluation index (quick: the first 30 and every 3rd after), every callback index and every direction-provider call; distinct = (problem, solver, mode, injection point kind, final status) signature")
     ctx.assumptions += ["PARTIAL: asynchronous stop() from another thread and data-race freedom of AtomicStopSignal (relaxed load / store on std::atomic<bool>) are runtime behaviour that no Gallina model exhibits; not claimed",
-                        "promptness: PROVED bounds (Properties_C19.v) for PANOC, ZeroFPR, FISTA stand-alone and under ALM, converted to user-function calls (one oracle call <= 4 user calls, <= 2 when m = 0); for all four solvers under ALM every inner solve started after the request must be start-up + one stop check (proved); "
+                        "promptness: PROVED bounds (Properties_C19.v) for PANOC, ZeroFPR, FISTA stand-alone and under ALM, converted to user-function calls (one oracle call <= 4 user calls, <= 2 when m = 0); "
+                        "for all four solvers under ALM NO inner solve may start after the request (proved: C19_alm_*_stop_ends_run; the driver counts eval_proj_multipliers calls = outer iterations started), "
+                        "so the tail under ALM is the tail of ONE inner solve; "
                         "EMPIRICAL evaluation bound for PANTR (the direction's Hessian-vector products are not a constant of the theorem): "
-                        "evaluations after the request <= (largest number of evaluations between two callbacks of the unstopped run, or before the first callback) + 8 (2G+8 under ALM)",
-                        "FINDING (not a violation of the interpretation in DESIGN §10, reported): under ALM the number of inner solves started after a visible request is not bounded by one; "
-                        "each of them is start-up + one stop check (checked), see C19_alm_one_further_solve_refuted and the probe counted in coverage['alm_probe']",
+                        "evaluations after the request <= (largest number of evaluations between two callbacks of the unstopped run, or before the first callback) + 8, stand-alone and under ALM",
                         "the initial Lipschitz estimate and the step-size backtracking loops are not polled (counted in the bound above)",
-                        "ALM does not poll the flag itself: if the inner solve ends with a status ranked above Interrupted at the check that sees the request, the next inner solve starts and returns Interrupted at its first check (bound 2G+8 under ALM)",
+                        "ALMSolver::stop() sets ALM's own flag and forwards to the inner solver; the outer loop reads its flag once per outer iteration after the inner solve, ranked after Converged / MaxTime / MaxIter",
                         "PANOC-OCP: chain identical by theorem; its runs are covered by C13"]
     check_properties(ctx)
     if not build_driver(ctx, "solve"): return
@@ -201,38 +204,43 @@ def run(ctx):
             if tail > bound:
                 ctx.violation("C19:not-prompt:" + tag, "%d further evaluations after stop() (PROVED bound %d = %s)" % (tail, bound, how), info)
         elif mode == "alm":
-            # C19_alm_panoc_stop_is_prompt / C19_alm_{zerofpr,pantr,fista}_stop_is_prompt
+            # C19_alm_{panoc,zerofpr,pantr,fista}_stop_ends_run: the run ends at the outer iteration in which the request becomes visible
             W = 4
-            # final callbacks (one per inner solve) issued after the request: the solve in progress, then the later ones
-            fin_after = [r for r in recs_all if r["status"] != "Busy" and r["evals"] > o["evals_at_stop"]]
-            later = fin_after[1:]
-            later_outer = set(r["outer"] for r in later)
-            for oi in sorted(later_outer):
-                rs = [r for r in recs_all if r["outer"] == oi]
+            at, started = o["outer_at_stop"], o["outer_started"]
+            # a request that lands before the first outer iteration (inside initialize_penalty) is seen by the first inner solve
+            allowed = max(at, 1)
+            if started > allowed:
+                ctx.violation("C19:alm-runs-on-after-stop-request",
+                              "%s under ALM: stop() was called when %d outer iteration(s) had started, but %d were started in all (%d inner solve(s) STARTED after the request; "
+                              "%d user-function evaluations after it; final status %s)" % (solver, at, started, started - allowed, tail, st), info)
+                ctx.count("alm/inner-solves-started-after-request")
+            if o.get("outer_iterations", started) != started:
+                ctx.violation("C19:alm-outer-count:" + solver, "outer_iterations=%s but %d outer iterations were started" % (o.get("outer_iterations"), started), info)
+            if at == 0 and started >= 1:
+                # the first inner solve started with the request visible: start-up + one stop check (C19_alm_inner_started_after_request)
+                rs = [r for r in recs_all if r["outer"] == 0]
                 if len(rs) != 1 or rs[0]["k"] != 0 or rs[0]["status"] == "Busy":
                     ctx.violation("C19:alm-inner-solve-iterates-after-stop:" + solver,
-                                  "inner solve of outer iteration %d was started after stop() and made %d callbacks / reached k=%d (proved: start-up + one stop check)"
-                                  % (oi, len(rs), max(r["k"] for r in rs)), info)
-            for r in later[:-1]:
+                                  "the first inner solve was started after stop() (called inside ALM's penalty initialisation) and made %d callbacks / reached k=%d (proved: start-up + one stop check)"
+                                  % (len(rs), max([r["k"] for r in rs] + [0])), info)
+            fins = [r for r in recs_all if r["status"] != "Busy"]
+            for r in fins[:-1]:
                 if r["status"] == "Interrupted":
                     ctx.violation("C19:alm-continued-after-interrupted:" + solver, "an inner solve after outer iteration %d although it returned Interrupted" % r["outer"], info)
             if solver in STARTUP_K:
                 ctx.count("promptness/proved-bound")
                 kloop = PROVED_K.get(solver, STARTUP_K[solver] + NBT_CAP - 1)       # FISTA: the pass in progress incl. its unpolled backtracking
-                first = max(W * (kloop + 1) - 1, W * (STARTUP_K[solver] + NBT_CAP) - 1)
-                bound = first + len(later) * W * (STARTUP_K[solver] + NBT_CAP) + 3      # + compute_kkt_error of the driver
-                if tail > bound:
-                    ctx.violation("C19:not-prompt:" + tag, "%d further evaluations after stop() (PROVED bound %d for %d later one-check inner solves)" % (tail, bound, len(later)), info)
+                bound = max(W * (kloop + 1) - 1, W * (STARTUP_K[solver] + NBT_CAP) - 1) + 3      # single solve + compute_kkt_error of the driver
+                if tail > bound and started <= allowed:
+                    ctx.violation("C19:not-prompt:" + tag, "%d further evaluations after stop() (PROVED single-solve bound %d; no inner solve started after the request)" % (tail, bound), info)
             else:
                 ctx.count("promptness/empirical-bound")
-            # the interpretation bound of DESIGN §10 stays in force as well (it is what a user sees) while at most one inner solve follows
-            if tail > 2 * G + 8 and len(later) <= 1:
-                ctx.violation("C19:not-prompt:" + tag, "%d further evaluations after stop() (bound 2G+8 = %d with at most one later inner solve)" % (tail, 2 * G + 8), info)
-            if len(later) > 1:
-                ctx.count("alm/more-than-one-later-inner-solve")
+            # what a user sees: one further iteration's worth of evaluations, as stand-alone (the 2G+8 allowance for a next inner solve is gone)
+            if tail > G + 8 and started <= allowed:
+                ctx.violation("C19:not-prompt:" + tag, "%d further evaluations after stop() (bound G+8 = %d; largest per-iteration count of the unstopped run %d)" % (tail, G + 8, G), info)
         else:
             ctx.count("promptness/empirical-bound")
-            bound = (G + 8) if mode == "inner" else (2 * G + 8)
+            bound = G + 8
             if tail > bound:
                 ctx.violation("C19:not-prompt:" + tag, "%d further evaluations after stop() (bound %d; largest per-iteration count of the unstopped run %d)" % (tail, bound, G), info)
         # (3) outputs consistent
@@ -243,8 +251,7 @@ def run(ctx):
             # ALM: Interrupted is propagated immediately: the last record belongs to the last outer iteration and no inner solve follows
             recs = o["records"]
             if st == "Interrupted":
-                if recs and recs[-1]["status"] != "Interrupted":
-                    ctx.violation("C19:alm-continued-after-interrupted:" + solver, "ALM returned Interrupted but the last inner solve ended with %s" % recs[-1]["status"], info)
+                # (the last inner solve need not have ended Interrupted: ALM's own flag, read after a solve that ended with another status)
                 if recs and recs[-1]["outer"] != o["outer_iterations"] - 1:
                     ctx.violation("C19:alm-outer-count:" + solver, "outer_iterations=%d but the interrupted inner solve was outer iteration %d" % (o["outer_iterations"], recs[-1]["outer"]), info)
             inner_interrupted = any(r["status"] == "Interrupted" for r in recs)
@@ -261,9 +268,10 @@ def run(ctx):
                         ctx.violation(sig.replace("C03:", "C19:outputs:"), "ALM after stop at %s #%d: %s" % (kind, j, msg), dict(info, why=msg))
                 elif not all(math.isfinite(t) for t in x_out):
                     ctx.violation("C19:outputs:x-not-finite:" + solver + ":alm", "ALM returned non-finite x after stop", info)
-    # probe for the ALM finding (C19_alm_one_further_solve_refuted): min -x, x in [0,1], x <= 1/2, x0 = 1, Σ0 = 0.01; stop() inside
-    # evaluation #0.  Inner solves 0..2 end at their first check with Converged (ranked above Interrupted), ALM does not poll.
-    # Recorded, and checked against what IS proved (every solve is start-up + one check; the first Interrupted one is the last).
+    # probe: the recorded counter-run of the former ALM defect (known_findings C19:alm-runs-on-after-stop-request; Properties_C19.
+    # C19_alm_stop_ends_run_nonvacuous): min -x, x in [0,1], x <= 1/2, x0 = 1, Σ0 = 0.01; stop() inside evaluation #0.  The first inner
+    # solve ends at its first check with Converged (ranked above Interrupted); the outer loop must read its own flag and return after
+    # ONE outer iteration (before the repair: 4 outer iterations, 40 further evaluations).
     pp = sl.Problem(1, 1, [[0.0]], [-1.0], [0.0], [[1.0]], [0.0], [0.0], [1.0], [-INF], [0.5])
     probe = {}
     for solver, direction in [("panoc", "lbfgs"), ("zerofpr", "lbfgs"), ("pantr", "newtontr"), ("fista", "-")]:
@@ -279,9 +287,14 @@ def run(ctx):
                          "inner_statuses": [r["status"] for r in recs if r["status"] != "Busy"]}
         ctx.case("alm-probe/%s/%s/%d-inner-solves" % (solver, po["status"], len(recs)))
         info = {"driver": "drv_solve", "input": rq.to_input(), "request": rq.describe(), "impl_output": {k: v for k, v in po.items() if k != "records"}}
+        if po.get("outer_iterations") != 1 or po.get("outer_started") != 1:
+            ctx.violation("C19:alm-runs-on-after-stop-request",
+                          "probe (min -x, x in [0,1], x <= 1/2, x0=1, Sigma0=0.01, ProjGradNorm, stop() inside evaluation #0), %s under ALM: %s outer iterations "
+                          "(inner statuses %s), %d user-function evaluations after the request; no inner solve may start after the request"
+                          % (solver, po.get("outer_iterations"), [r["status"] for r in recs if r["status"] != "Busy"], po["evals"] - 1), info)
         if any(r["k"] != 0 or r["status"] == "Busy" for r in recs) or len(set(r["outer"] for r in recs)) != len(recs):
             ctx.violation("C19:alm-inner-solve-iterates-after-stop:" + solver, "probe: an inner solve started after stop() made an iteration", info)
-        if any(r["status"] == "Interrupted" for r in recs[:-1]) or (recs and recs[-1]["status"] == "Interrupted") != (po["status"] == "Interrupted"):
+        if any(r["status"] == "Interrupted" for r in recs[:-1]) or (recs and recs[-1]["status"] == "Interrupted" and po["status"] != "Interrupted"):
             ctx.violation("C19:alm-continued-after-interrupted:" + solver, "probe: Interrupted inner solve is not the last / not propagated", info)
     ctx.coverage["alm_probe"] = probe
     ctx.coverage["exhaustive"] = not ctx.quick()
